@@ -5,8 +5,12 @@ import PBProofs.Lemmas.Db
 import PBProofs.Lemmas.DbSim
 import PBProofs.Lemmas.DbDelay
 import PBProofs.Lemmas.DbSrc
+import PBProofs.Lemmas.DbKey
 import PB.Gen.DbTime
 import PB.Gen.MetaSrc
+import PB.Gen.DbKey
+import PB.Gen.DbIter
+import PBProofs.Lemmas.IterHandOver
 /-
 C02 — Every database backend behaves like one reference key-to-record store.
 Property theorems only (helper lemmas live in PBProofs/Lemmas/Db.lean and DbSim.lean).
@@ -105,6 +109,51 @@ theorem source_maintenance_switch_touches_only_dead (b : Backend) (m : Meta) (no
     four query executors, bbolt purge, the runtime registry's query): at least one guard per function in the
     source of this run. -/
 theorem source_read_paths_check_validity : ∀ p ∈ PB.Gen.DbTime.validityGuards, p.2 ≥ 1 := by decide
+
+/-! ### Keys are opaque strings
+
+The model's operations take the database key as it is. In the code every interface operation
+(`Interface.getRecord` / `getMeta`), `record.Base.SetKey`, `record.NewWrapper` and `query.New` first split
+`"<database>:<key>"` with `record.ParseKey`. `PB.Gen.DbKey.ParseKey` is that function translated from the
+source on every run (harness/cmd/extract/dbkey.go, semantics of `strings.SplitN / Split / Join` in
+`PB.GoStr`); the statements below say that the split hands the model exactly the key the caller named —
+whatever characters it contains, further colons included. -/
+
+/-- `ParseKey("<db>:<key>") = (db, key)` for EVERY key (database names have no colon): the part behind the first
+    colon is the database key, unchanged. -/
+theorem source_parseKey_keeps_whole_key (db key : List Char) (h : ':' ∉ db) :
+    PB.Gen.DbKey.ParseKey (db ++ ':' :: key) = .ok (db, key) := by
+  open PB.GoStr in
+  first
+  | (simp [PB.Gen.DbKey.ParseKey, splitN, splitK, cut_colon_append db key h, len, inIdx, strAt, inSlice, slice, join]; done)
+  | (have e : split (db ++ ':' :: key) [':'] = db :: splitK [':'] (db.length + key.length) key := by
+       simp only [split, splitN]
+       rw [if_neg (by decide), if_pos (by decide), length_colon_append, splitK_colon_append _ _ _ h]
+     have hne := splitK_ne_nil [':'] (db.length + key.length) key
+     have hj := join_splitK [':'] (db.length + key.length) key
+     generalize splitK [':'] (db.length + key.length) key = L at *
+     cases L with
+     | nil => contradiction
+     | cons x xs =>
+       simp [PB.Gen.DbKey.ParseKey, e, len, inIdx, strAt, inSlice, slice]
+       rw [hj]
+       have h1 : ¬ ((xs.length : Int) + 1 + 1 < 2) := by omega
+       have h2 : (0 : Int) < (xs.length : Int) + 1 + 1 := by omega
+       have h3 : (1 : Int) ≤ (xs.length : Int) + 1 + 1 := by omega
+       simp [h1, h2, h3])
+
+/-- Records under different keys of one database stay different records: no two keys are split to the same pair. -/
+theorem source_parseKey_injective (db k1 k2 : List Char) (h : ':' ∉ db)
+    (he : PB.Gen.DbKey.ParseKey (db ++ ':' :: k1) = PB.Gen.DbKey.ParseKey (db ++ ':' :: k2)) : k1 = k2 := by
+  rw [source_parseKey_keeps_whole_key db k1 h, source_parseKey_keeps_whole_key db k2 h] at he
+  injection he with he
+  exact (Prod.mk.inj he).2
+
+/-- A name without colon is a database name with the empty key (the query prefix of a whole database). -/
+theorem source_parseKey_without_colon (k : List Char) (h : ':' ∉ k) :
+    PB.Gen.DbKey.ParseKey k = .ok (k, []) := by
+  open PB.GoStr in
+  simp [PB.Gen.DbKey.ParseKey, split, splitN, splitK_colon_none _ k h, len, inIdx, strAt]
 
 /-! ### Maintenance -/
 
@@ -358,6 +407,26 @@ theorem iterator_all_records_delivered (n cap : Nat) (sched : List Iter.Act) (s 
       | some s1 => rw [hst] at h; exact ih s1 s (iterator_count_invariant n s0 s1 a hinv hst) h hd
   exact key sched (Iter.init n cap) s (by simp [Iter.init]) hrun hdone
 
+/-- A query that is still running while records are deleted or expire (`PB.Iter.HandOver`: `check` = the visit of a
+    record with its validity check, `protect x` = the delete / expiry of `x` has returned): a record that stops being
+    visible before its hand-over check is never listed, and once that holds for every remaining candidate at most
+    capacity + 1 further records — those that had already left the executor — arrive. All candidate lists, buffer
+    capacities and schedules. -/
+theorem invalid_before_check_never_listed (todo : List Nat) (hn : todo.Nodup) (cap : Nat)
+    (sched post : List Iter.HandOver.Act) (s s' : Iter.HandOver.St)
+    (hs : Iter.HandOver.exec (Iter.HandOver.init todo cap) sched = some s) :
+    (∀ x ∈ s.due, x ∉ s.recvd ∧ x ∉ s.buf ∧ s.hand ≠ some x) ∧
+    ((∀ x ∈ s.todo, x ∈ s.prot) → Iter.HandOver.exec s post = some s' →
+      Iter.HandOver.inFlight s' ≤ Iter.HandOver.inFlight s) :=
+  ⟨(Iter.HandOver.inv_exec sched _ s (Iter.HandOver.inv_init todo cap hn) hs).2.2.2,
+   fun hc h2 => Iter.HandOver.closed_exec post s s' hc
+     (Iter.HandOver.buf_le_cap_exec sched _ s (by simp [Iter.HandOver.init]) hs) h2⟩
+
+/-- In every backend's `queryExecutor`, as the source stands, `CheckValidity` gates the send within the visit of the
+    record (table regenerated by harness/cmd/extract/dbiter.go). -/
+theorem source_handover_checks_validity :
+    ∀ e ∈ PB.Gen.DbIter.handOverChecks, "CheckValidity" ∈ e.2 := by decide
+
 /-- With the order of the pinned tree (close the stream, then store the error) a consumer can read `Err()` in
     between and see nothing: the schedule below is a run of the old protocol that ends with the error lost.
     Repaired by `fix: Iterator.Finish stores the error before closing the result stream`. -/
@@ -467,5 +536,14 @@ example :
 /-- A complete run of the hand-over protocol with three records through a channel of capacity two. -/
 example : (Iter.exec (Iter.init 3 2) [.send, .send, .recv, .send, .storeErr, .recv, .closeNext, .recv, .seeEnd, .closeDone, .readErr]).map
     (fun s => (s.cpc, s.received, s.observed)) = some (2, 3, true) := by decide
+
+/-- two keys that differ only behind a colon inside the key -/
+example : PB.Gen.DbKey.ParseKey "db:conn/10.0.0.1:443".toList = .ok ("db".toList, "conn/10.0.0.1:443".toList) ∧
+    PB.Gen.DbKey.ParseKey "db:conn/10.0.0.1:8080".toList = .ok ("db".toList, "conn/10.0.0.1:8080".toList) ∧
+    PB.Gen.DbKey.ParseKey "db::a:".toList = .ok ("db".toList, ":a:".toList) := by
+  refine ⟨?_, ?_, ?_⟩
+  · exact source_parseKey_keeps_whole_key "db".toList "conn/10.0.0.1:443".toList (by decide)
+  · exact source_parseKey_keeps_whole_key "db".toList "conn/10.0.0.1:8080".toList (by decide)
+  · exact source_parseKey_keeps_whole_key "db".toList ":a:".toList (by decide)
 
 end PB.C02
